@@ -13,7 +13,7 @@ LEVEL = "proof"
 
 
 def cases(O):
-    n = 700 if O.tier == "quick" else 4000
+    n = 700 if O.tier == "quick" else 12000
     cs = F.regress_cases() + F.snippet_cases()
     for v in ("OFF", "INFORMATION", "MANDATORY"):
         cs += [dict(c, id=c["id"] + "-" + v, config=vlib.default_config(telemetryVerbosity=v)) for c in F.snippet_cases()[:40]]
